@@ -14,6 +14,8 @@ import time
 import traceback
 from typing import Any, Callable, Dict, List, Optional
 
+import vf as _vf
+
 ACTIVE = False
 
 _solver_stats = {"queries": 0, "seconds": 0.0, "unknown": 0}
@@ -215,6 +217,7 @@ def explore(
         "exhausted": False, "samples": [], "counterexamples": [], "unknown_reasons": {},
         "nondeterministic": 0,
     }
+    reasons_seen: Dict[tuple, int] = {}
     t_start = time.process_time()
     w_start = time.time()
     ACTIVE = True
@@ -235,6 +238,7 @@ def explore(
                 try:
                     pre_args = gen_args(sig)
                     args = deepcopyext(pre_args, CopyMode.REGULAR, {})
+                    del _vf.NOTES[:]  # reasons noted by the harness belong to one path
                     ret: Any = None
                     skipped = False
                     user_exc = None
@@ -274,10 +278,22 @@ def explore(
                             if user_exc is not None:
                                 ce["exception"] = repr(user_exc[0])[:500]
                                 ce["traceback"] = "".join(user_exc[1].format()[-6:])[-3000:]
-                            res["counterexamples"].append(ce)
                             # keep exploring after a counterexample (it may be spurious and is
-                            # replayed by the parent anyway); stop after a handful
-                            breakout = stop_on_refute or len(res["counterexamples"]) >= 4
+                            # replayed by the parent anyway); stop after a handful.  When the harness
+                            # notes *why* a path failed, counterexamples are kept per distinct reason
+                            # (two each, ten in all), so that a cell in which a recorded known finding
+                            # fails on many paths cannot crowd out a different failure of the property.
+                            reason = tuple(str(x) for x in _vf.NOTES)
+                            seen = reasons_seen.get(reason, 0)
+                            reasons_seen[reason] = seen + 1
+                            if not reason:
+                                res["counterexamples"].append(ce)
+                                breakout = stop_on_refute or len(res["counterexamples"]) >= 4
+                            else:
+                                ce["reason"] = list(reason)
+                                if seen < 2:
+                                    res["counterexamples"].append(ce)
+                                breakout = stop_on_refute or len(res["counterexamples"]) >= 10
                 except IgnoreAttempt:
                     res["skipped"] += 1
                     status = None
